@@ -108,6 +108,7 @@ def atom_texts():
         out.append(f'python_full_version {op} "3.7.2"')
     out += ['python_version in "3.7, 3.8"', 'python_version not in "3.7, 3.8"', 'python_full_version == "3.7.*"', 'python_full_version != "3.7.*"',
             '"3.7.2" <= python_full_version', 'python_version >= "3"', "os_name == 'b'",
+            '"t" in extras', '"t-x" in extras', '"t" not in extras', '"T_X" in extras',
             'python_version > "3"', 'python_version <= "3"', 'python_version == "3"', 'python_version != "3"', '"3.7.2" > python_full_version',
             '"3.8.0" < python_full_version', 'python_version >= "3.8.0"', 'python_version != "3.7.0"']
     return out
@@ -140,6 +141,8 @@ def _work(task):
     fails, n = [], 0
     for text in texts:
         n += 1
+        if tag == "noconv":
+            dom.it.clear_caches()    # each such text meets a cold library: no twin objects from other texts in the caches
         try:
             tree = parse_marker_text(text)
             exp = tree_mask(dom.envs, tree)
@@ -156,11 +159,19 @@ def _work(task):
             raise
         got = dom.den(m)
         if got != exp:
-            noconv = sorted({t[2] for t in _atoms_of(tree) if t[4] and t[2] in ("in", "not in", "~=", "===")})
-            if noconv:
-                # literal-on-the-left atom whose operator has no converse: stored as (reflect(op), reversed=True) and
-                # treated by the algebra like the non-reversed atom (root cause: `reversed` is outside __eq__/specifier)
-                key = f"dep_logic.markers:_build_markers:literal-left-no-converse:{noconv[0]}"
+            ats = list(_atoms_of(tree))
+            PY = {"python_version", "python_full_version"}
+
+            def same_var(u, t):
+                return u is not t and (u[1] == t[1] or {u[1], t[1]} <= PY)
+            # a literal-on-the-left atom whose operator has no converse, together with another atom on the same variable: the merge
+            # logic ignores `reversed` (known finding); the key names the operator pair so that a NEW wrong pair is still reported
+            # ... except operator pairs the unchanged merge table never combines (two containment atoms of the same polarity and
+            # orientation with different literals): a wrong merge there is new behaviour, not the known finding
+            pairs = sorted({(t[2], u[2], u[4], t[3] == u[3]) for t in ats if t[4] and t[2] in NOCONV for u in ats if same_var(u, t)})
+            covered = [p for p in pairs if not (p[0] in ("in", "not in") and p[1] == p[0] and p[2] and not p[3])]
+            if covered:
+                key = f"dep_logic.markers:_build_markers:literal-left-no-converse:{covered[0][0]}"
             else:
                 key = dom.blame("dep_logic.markers:_build_markers")
             fails.append(("R03.2", key,
@@ -321,6 +332,12 @@ def run(chk):
         texts.append(f'python_version == "{lits[0]}" or python_version == "{lits[1]}"')
         texts.append(f'python_version != "{lits[0]}" and python_version != "{lits[1]}"')
         texts.append(f'python_full_version == "{lits[0]}" or python_full_version == "{lits[1]}"')
+    setv = ['"t" in extras', '"t-x" in extras', '"t" not in extras', '"t-x" not in extras', '"x" in extras']
+    for a in setv:
+        for b in setv:
+            if a != b:
+                texts.append(f"{a} and {b}")
+                texts.append(f"{a} or {b}")
     triples = 500 if chk.tier == "quick" else 4000
     for _ in range(triples):
         a, b, c = rnd.sample(atoms, 3)
